@@ -52,7 +52,8 @@ pub fn gen_sel(form: &str, extent: usize, rng: &mut Rng) -> Sel {
     "ri" => { let a = 1 + rng.below(extent as u64) as usize; let b = a + rng.below((extent - a + 1) as u64) as usize; Sel::R(a, b, true) }
     "rx" => { let a = 1 + rng.below(extent as u64) as usize; let b = a + 1 + rng.below((extent - a + 1) as u64) as usize; Sel::R(a, b, false) }
     "a" => Sel::All,
-    "m" => { let mut m: Vec<bool> = (0..extent).map(|_| rng.chance(1, 2)).collect(); let j = rng.below(extent as u64) as usize; m[j] = true; Sel::M(m) }
+    // one mask in six selects nothing (the result is an empty matrix), the others select at least one position
+    "m" => { if rng.chance(1, 6) { return Sel::M(vec![false; extent]); } let mut m: Vec<bool> = (0..extent).map(|_| rng.chance(1, 2)).collect(); let j = rng.below(extent as u64) as usize; m[j] = true; Sel::M(m) }
     _ => panic!("form"),
   }
 }
@@ -226,7 +227,7 @@ impl Prop for C03 {
       let after = s.snapshot();
       if after != before { return Outcome::violated("source-modified", format!("symbols changed by read {}: {} -> {}", src, show_snapshot(&before), show_snapshot(&after))); }
       return match res {
-        Ev::Ok(v) => Outcome::violated("value-instead-of-error", format!("{} on {} returned {}", src, x.show(), v.show())),
+        Ev::Ok(v) => Outcome::violated(if v.is_matrix() && v.elems().is_empty() { "value-instead-of-error:empty-result" } else { "value-instead-of-error" }, format!("{} on {} returned {}", src, x.show(), v.show())),
         Ev::Err(kind, _) => Outcome::held().tag(format!("err:{}", kind)),
         Ev::ParseErr(m) => Outcome::inconclusive("harness-parse", format!("{} {}", src, m)),
         Ev::Panic(m) => Outcome::violated("panic-escaped", m),
